@@ -69,6 +69,18 @@ def encfiles(cq, ct):
             T: ["encfiles", "--cases", str(ct), "--size", "30", "--shards", "12"], "seeds_t": 3}
 
 
+def abiconn(cq, ct):
+    return {"name": "S-abi:connection analysis on run-time definition families", Q: ["abiconn", "--cases", str(cq)], T: ["abiconn", "--cases", str(ct)], "seeds_t": 4}
+
+
+def abicall(cq, ct):
+    return {"name": "S-abi:calls between interface versions of the evolution families", Q: ["abicall", "--cases", str(cq)], T: ["abicall", "--cases", str(ct)], "seeds_t": 4}
+
+
+def ledger(cq, ct):
+    return {"name": "S-abi:compatibility ledger histories", Q: ["ledger", "--cases", str(cq)], T: ["ledger", "--cases", str(ct)], "seeds_t": 4}
+
+
 PROPS = {
     "C01": {
         "module": "Sfv.Props.C01",
@@ -94,6 +106,18 @@ PROPS = {
         "tables": ["tables_prim_widths"],
         "suites": [xver(6, 40), codec(3, 15, filt="Fam"), codec(3, 15, filt="Ver"), PACKED],
         "oracle": ["C18"],
+    },
+    "C10": {
+        "module": "Sfv.Props.C10",
+        "tables": [],
+        "suites": [abiconn(1500, 6000), abicall(4, 20)],
+        "oracle": ["C10", "C09"],
+    },
+    "C15": {
+        "module": "Sfv.Props.C15",
+        "tables": [],
+        "suites": [ledger(600, 3000)],
+        "oracle": ["C15"],
     },
     "C14": {
         "module": "Sfv.Props.C14",
